@@ -11,7 +11,8 @@ MANIFEST = dict(
           "composition table, run through the Gallina transcription of mass.init on the table text regenerated "
           "from /repo, the abundances sum to exactly 100 over the listed isotopes and over all isotopes; the "
           "abundance-weighted isotope mass is within the stated uncertainty of the atomic weight; unlisted isotopes "
-          "have abundance 0; the loader accepts every row.  Tie: exhaustive correspondence - all 119 elements and "
+          "have abundance 0; the loader accepts every row; every row names the element it is filed under and the "
+          "isotope-mass table has one row per nuclide, in order of (Z, A).  Tie: exhaustive correspondence - all 119 elements and "
           "2940 isotopes x 7 observables, public and private table, implementation value vs model value (bit-exact "
           "for table reads).  A failing input is searched with an independent third reading of the table text."),
     note="Modelled not verified: Python float(), str.split, dict order.",
